@@ -217,6 +217,9 @@ func (t *Type) Written() string {
 	if t.Ref != nil && t.Qual {
 		return t.Ref.File.Prefix() + "." + t.Ref.Name
 	}
+	if t.Ref != nil {
+		return t.Ref.Name
+	}
 	return t.Name
 }
 
